@@ -25,8 +25,12 @@ def main():
         return 2
     r = sh(f"git -C {REPO} apply {d}/patch.diff")
     if r.returncode != 0:
-        print("patch does not apply:", r.stdout)
-        return 2
+        # hook commits made after the change was written may have moved its context: 3-way apply
+        r = sh(f"git -C {REPO} apply --3way {d}/patch.diff")
+        if r.returncode != 0:
+            sh(f"git -C {REPO} reset -q --hard HEAD")
+            print("patch does not apply:", r.stdout)
+            return 2
     results = {}
     try:
         for p in props:
@@ -45,7 +49,7 @@ def main():
             if summary:
                 print("    ", summary[-1][:300])
     finally:
-        sh(f"git -C {REPO} checkout -- .")
+        sh(f"git -C {REPO} reset -q --hard HEAD")
         # evidence and replay files written while the change was applied are not evidence of anything
         sh(f"git -C {VERIF} checkout -- evidence", cwd=VERIF)
         sh(f"git -C {VERIF} clean -fdq replay", cwd=VERIF)
